@@ -38,6 +38,22 @@ class C18(Prop):
             ck["key_prefix"] = E(b"p:")
         if nc > 1 and rng.random() < 0.08:
             return self.gen_shared(rng, idx, nc, ck)
+        if nc > 1 and rng.random() < 0.02:
+            # a multi-key read of more than a hundred keys of which the primary holds only a few: its answer is
+            # non-empty, so it is THE answer (no cache after it is consulted, nothing is merged in)
+            pfx = codec.dec(ck.get("key_prefix", E(b"")))
+            many = [b"m%03d" % j for j in range(rng.randint(101, 260))]
+            held = rng.sample(many, rng.randint(1, 3))
+            steps = []
+            for ci in range(nc):
+                for mk in (held if ci == 0 else many):
+                    steps.append({"t": "direct", "node": ci, "key": E(pfx + mk), "value": E(b"c%d-" % ci + mk)})
+            for _ in range(rng.randint(1, 3)):
+                steps.append({"t": "call", "m": rng.choice(["get_many", "gets_many"]),
+                              "a": [E(many if rng.random() < 0.7 else tuple(many))], "k": {}})
+            w = {"stack": "fallback", "servers": servers, "nodes": nodes, "client_kwargs": ck,
+                 "per_cache_kwargs": per, "knobs": {"recv_size": 4096}}
+            return [{"property": self.id, "world": w, "steps": steps}]
         w = {"stack": "fallback", "servers": servers, "nodes": nodes, "client_kwargs": ck,
              "per_cache_kwargs": per, "knobs": {"recv_size": rng.choice(gen.RECV_SIZES)}}
         pfx = codec.dec(ck.get("key_prefix", E(b"")))
@@ -263,7 +279,7 @@ class C18(Prop):
                 if not model.results_equal(want, rec.value):
                     out.append(viol("read-returned-wrong-value", rec, want=repr(want)[:120], got=rec.enc_outcome()))
             if rec.outcome == "raise":
-                out.append(viol("read-raised", rec, exc=type(rec.exc).__name__, msg=str(rec.exc)[:80]))
+                out.append(viol("read-raised", rec, exc=type(rec.exc).__name__, msg=engine._exc_text(rec.exc)[:80]))
         out.sort(key=lambda v: v["step"])
         return out
 
